@@ -155,7 +155,9 @@ tokFilled:
 
 	start.Head = expr
 
-	tok, err = lexer.PeekNextToken(0)
+	// we are inside a list: wait for more input rather than
+	// deciding on an empty look-ahead whether a '\' follows.
+	tok, err = parser.ParserPeekNextToken(0)
 	if err != nil {
 		return SexpNull, err
 	}
@@ -164,12 +166,16 @@ tokFilled:
 	if tok.typ == TokenBackslash {
 		// eat up the backslash
 		_, _ = lexer.GetNextToken()
-		expr, err = parser.ParseExpression(depth + 1)
+		expr, err = parser.parsePrefixOperand(depth + 1)
 		if err != nil {
 			return SexpNull, err
 		}
 
 		// eat up the end paren
+		_, err = parser.ParserPeekNextToken(0)
+		if err != nil {
+			return SexpNull, err
+		}
 		tok, err = lexer.GetNextToken()
 		if err != nil {
 			return SexpNull, err
